@@ -33,11 +33,16 @@ def heavy(ctx, cfg):
     from probables import HeavyHitters
     w, d, Hn, seq = cfg["w"], cfg["d"], cfg["H"], cfg["seq"]
     hh, table = _sketch(ctx, HeavyHitters, w, d, num_hitters=Hn)
-    for k in sorted(set(seq)):
+    for k in sorted(set(x for x in seq if x != "C")):
         table[f"k{k}"] = [ctx.hashval(f"h{k}_{i}", w) for i in range(d)]
     last = {}
     ctx.check(hh.number_heavy_hitters == Hn and hh.heavy_hitters == {}, "hh-fresh")
     for s, k in enumerate(seq):
+        if k == "C":        # clear(): the object behaves like a fresh one from here on (the history starts again)
+            hh.clear()
+            last = {}
+            ctx.check(hh.heavy_hitters == {}, "hh-clear-empties")
+            continue
         key = f"k{k}"
         n = ctx.int(f"n{s}", 1, 2 ** 20)
         r = hh.add(key, n)
@@ -102,6 +107,14 @@ def jobs(tier):
                 for seq in itertools.product(range(4 if n == 5 else 3), repeat=n):
                     if _canon(seq) and (n >= 4 or len(set(seq)) > Hn):
                         js.append({"h": "c17.heavy", "cfg": {"w": w, "d": d, "H": Hn, "seq": list(seq)}, "opts": {"cost": 2 ** n, "witnesses": 1}})
+        # a clear() in the middle: the history after it is judged like a history from the fresh object
+        for Hn, npre, npost in ((1, 2, 2), (1, 2, 3), (1, 3, 2), (2, 3, 3)):
+            if Hn == 2 and (w, d) == (2, 2):
+                continue
+            for pre in itertools.product(range(3), repeat=npre):
+                for post in itertools.product(range(3), repeat=npost):
+                    if _canon(pre) and _canon(post) and len(set(pre)) > Hn and len(set(post)) > Hn:
+                        js.append({"h": "c17.heavy", "cfg": {"w": w, "d": d, "H": Hn, "seq": list(pre) + ["C"] + list(post)}, "opts": {"cost": 30, "witnesses": 1}})
         for n in (1, 2, 3, 4):
             for ops in itertools.product("AR", repeat=n):
                 for ks in itertools.product(range(3), repeat=n):
